@@ -18,8 +18,11 @@ import (
 	"fmt"
 	"io"
 	"log"
+	"encoding/json"
 	"math/big"
 	"net"
+	"net/http"
+	"net/http/httptest"
 	"os"
 	"strings"
 	"sync/atomic"
@@ -56,6 +59,9 @@ type RenewCase struct {
 	// presented for renewal / rekey
 	EVA, EVB     U
 	AllowExpired bool
+	// dates the provisioner's certificate template sets (Kind 1 instants; Kind 0 = the default template)
+	TNB, TNA TD // X.509 template notBefore / notAfter
+	TVA, TVB TD // SSH template validAfter / validBefore
 }
 
 type envT struct {
@@ -68,6 +74,10 @@ type envT struct {
 	sshPub2             ssh.PublicKey
 	rootPEM             []byte
 	serial              int64
+	k8sKey              *ecdsa.PrivateKey
+	k8sPEM              []byte
+	oidcKey             *jose.JSONWebKey
+	oidcSrv             *httptest.Server
 	nebCA               *nebula.NebulaCertificate
 	nebKey              *ecdsa.PrivateKey
 	nebPEM              []byte
@@ -141,6 +151,26 @@ func getEnv() *envT {
 	}
 	e.csr, _ = x509.ParseCertificateRequest(der)
 	e.sshPub2, _ = ssh.NewPublicKey(mustKey().Public())
+	// Kubernetes service-account signing key; an OIDC issuer (discovery document + JWKS) on a local listener
+	e.k8sKey = mustKey()
+	if der, err := x509.MarshalPKIXPublicKey(e.k8sKey.Public()); err == nil {
+		e.k8sPEM = pem.EncodeToMemory(&pem.Block{Type: "PUBLIC KEY", Bytes: der})
+	}
+	ok, err := jose.GenerateJWK("EC", "P-256", "ES256", "sig", "", 0)
+	if err != nil {
+		panic(err)
+	}
+	ok.KeyID = "oidc-key-1"
+	e.oidcKey = ok
+	mux := http.NewServeMux()
+	e.oidcSrv = httptest.NewServer(mux)
+	mux.HandleFunc("/.well-known/openid-configuration", func(w http.ResponseWriter, _ *http.Request) {
+		json.NewEncoder(w).Encode(map[string]any{"issuer": e.oidcSrv.URL, "authorization_endpoint": e.oidcSrv.URL + "/auth",
+			"token_endpoint": e.oidcSrv.URL + "/token", "jwks_uri": e.oidcSrv.URL + "/jwks"})
+	})
+	mux.HandleFunc("/jwks", func(w http.ResponseWriter, _ *http.Request) {
+		json.NewEncoder(w).Encode(jose.JSONWebKeySet{Keys: []jose.JSONWebKey{ok.Public()}})
+	})
 	// a Nebula CA (P-256) valid well around every credential the cases generate
 	e.nebKey = mustKey()
 	ecdhKey, err := e.nebKey.ECDH()
@@ -171,17 +201,75 @@ func (k *RenewCase) provClaims() *provisioner.Claims {
 	return cl
 }
 
-func (k *RenewCase) authority() (*authority.Authority, error) {
+// tplTime: a template instant as RFC 3339 (ok=false when the case sets none / JSON cannot carry it)
+func tplTime(d TD, base time.Time) (time.Time, bool) {
+	if d.Kind != 1 {
+		return time.Time{}, false
+	}
+	t := d.T.at(base)
+	if t.IsZero() || t.Year() < 0 || t.Year() > 9999 {
+		return time.Time{}, false
+	}
+	return t, true
+}
+
+// templates: provisioner options whose X.509 / SSH templates are the default ones plus validity dates.
+func (k *RenewCase) templates(base time.Time) *provisioner.Options {
+	var o provisioner.Options
+	nb, hasNB := tplTime(k.TNB, base)
+	na, hasNA := tplTime(k.TNA, base)
+	if hasNB || hasNA {
+		extra := ""
+		if hasNB {
+			extra += fmt.Sprintf(",\n\t\"notBefore\": %q", nb.Format(time.RFC3339Nano))
+		}
+		if hasNA {
+			extra += fmt.Sprintf(",\n\t\"notAfter\": %q", na.Format(time.RFC3339Nano))
+		}
+		o.X509 = &provisioner.X509Options{Template: `{
+	"subject": {{ toJson .Subject }},
+	"sans": {{ toJson .SANs }},
+	"keyUsage": ["digitalSignature"],
+	"extKeyUsage": ["serverAuth", "clientAuth"]` + extra + "\n}"}
+	}
+	va, hasVA := tplTime(k.TVA, base)
+	vb, hasVB := tplTime(k.TVB, base)
+	if hasVA || hasVB {
+		extra := ""
+		if hasVA {
+			extra += fmt.Sprintf(",\n\t\"validAfter\": %q", va.Format(time.RFC3339Nano))
+		}
+		if hasVB {
+			extra += fmt.Sprintf(",\n\t\"validBefore\": %q", vb.Format(time.RFC3339Nano))
+		}
+		o.SSH = &provisioner.SSHOptions{Template: `{
+	"type": {{ toJson .Type }},
+	"keyId": {{ toJson .KeyID }},
+	"principals": {{ toJson .Principals }},
+	"extensions": {{ toJson .Extensions }},
+	"criticalOptions": {{ toJson .CriticalOptions }}` + extra + "\n}"}
+	}
+	if o.X509 == nil && o.SSH == nil {
+		return nil
+	}
+	return &o
+}
+
+func (k *RenewCase) authority(base time.Time) (*authority.Authority, error) {
 	e := getEnv()
 	pub := e.jwk.Public()
-	jp := &provisioner.JWK{Name: "jwk", Type: "JWK", Key: &pub, Claims: k.provClaims()}
-	xp := &provisioner.X5C{Name: "x5c", Type: "X5C", Roots: e.rootPEM, Claims: k.provClaims()}
+	opts := k.templates(base)
+	jp := &provisioner.JWK{Name: "jwk", Type: "JWK", Key: &pub, Claims: k.provClaims(), Options: opts}
+	xp := &provisioner.X5C{Name: "x5c", Type: "X5C", Roots: e.rootPEM, Claims: k.provClaims(), Options: opts}
 	cfg := &config.Config{
 		Address:  ":443",
 		DNSNames: []string{"ca.verif.test"},
 		AuthorityConfig: &config.AuthConfig{
-			Provisioners: provisioner.List{jp, xp, &provisioner.Nebula{Name: "nebula", Type: "Nebula", Roots: e.nebPEM, Claims: k.provClaims()},
-				&provisioner.SSHPOP{Name: "sshpop", Type: "SSHPOP", Claims: k.provClaims()}},
+			Provisioners: provisioner.List{jp, xp, &provisioner.Nebula{Name: "nebula", Type: "Nebula", Roots: e.nebPEM, Claims: k.provClaims(), Options: opts},
+				&provisioner.SSHPOP{Name: "sshpop", Type: "SSHPOP", Claims: k.provClaims()},
+				&provisioner.K8sSA{Name: "k8ssa", Type: "K8sSA", PubKeys: e.k8sPEM, Claims: k.provClaims(), Options: opts},
+				&provisioner.OIDC{Name: "oidc", Type: "OIDC", ClientID: "verif-client", ConfigurationEndpoint: e.oidcSrv.URL,
+					Admins: []string{"admin@verif.test"}, Claims: k.provClaims(), Options: opts}},
 			Backdate:     &provisioner.Duration{Duration: time.Duration(k.Backdate)},
 			Claims:       k.A.claims(),
 		},
@@ -218,6 +306,26 @@ func (k *RenewCase) token(aud, sub string, sshOpts *provisioner.SignSSHOptions, 
 	}
 	var sig jose.Signer
 	var err error
+	switch k.Prov {
+	case "k8ssa":
+		cl.Claims = jose.Claims{Issuer: "kubernetes/serviceaccount", Subject: "system:serviceaccount:verif:" + sub}
+		cl.SANs, cl.Step = nil, nil
+		sig, err = jose.NewSigner(jose.SigningKey{Algorithm: jose.ES256, Key: e.k8sKey}, new(jose.SignerOptions).WithType("JWT"))
+		if err != nil {
+			return "", err
+		}
+		return jose.Signed(sig).Claims(cl).CompactSerialize()
+	case "oidc":
+		oc := map[string]any{"iss": e.oidcSrv.URL, "aud": "verif-client", "sub": "admin-subject", "email": "admin@verif.test",
+			"email_verified": true, "exp": now.Add(5 * time.Minute).Unix(), "iat": now.Unix(),
+			"nonce": cl.ID}
+		sig, err = jose.NewSigner(jose.SigningKey{Algorithm: jose.ES256, Key: e.oidcKey.Key},
+			new(jose.SignerOptions).WithType("JWT").WithHeader("kid", e.oidcKey.KeyID))
+		if err != nil {
+			return "", err
+		}
+		return jose.Signed(sig).Claims(oc).CompactSerialize()
+	}
 	if k.Prov == "nebula" {
 		// the credential is a Nebula host certificate with the generated window, the token is signed with its key
 		key := mustKey()
@@ -276,7 +384,8 @@ func (k *RenewCase) runAll() (out [][2]string) {
 	}()
 	var line, impl string
 	e := getEnv()
-	a, err := k.authority()
+	base := time.Now().Round(0).UTC()
+	a, err := k.authority(base)
 	if err != nil {
 		return nil // claims that do not initialise: covered by the claims op of the unit stage
 	}
@@ -286,7 +395,6 @@ func (k *RenewCase) runAll() (out [][2]string) {
 	if err != nil {
 		return nil // the provisioner does not initialise with these claims
 	}
-	base := time.Now().Round(0).UTC()
 	restore := provisioner.VerifSetNow(base)
 	defer restore()
 	lnb, lna := k.LNB.at(base).Truncate(time.Second), k.LNA.at(base).Truncate(time.Second)
@@ -314,7 +422,16 @@ func (k *RenewCase) runAll() (out [][2]string) {
 			vnow = time.Now()
 			sctx := provisioner.NewContextWithMethod(ctx, provisioner.SignMethod)
 			var so []provisioner.SignOption
-			so, err = a.Authorize(sctx, tok)
+			if k.Prov == "scep" {
+				// SCEP has no token: the SCEP authority obtains the options from the provisioner and calls Sign
+				sp := &provisioner.SCEP{Name: "scep", Type: "SCEP", Claims: k.provClaims()}
+				if err = sp.Init(provisioner.Config{Claims: g.claims()}); err != nil {
+					return nil
+				}
+				so, err = sp.AuthorizeSign(sctx, "")
+			} else {
+				so, err = a.Authorize(sctx, tok)
+			}
 			if err != nil {
 				return append(out, [2]string{"skip reason=authorize", "skip"})
 			}
@@ -329,11 +446,13 @@ func (k *RenewCase) runAll() (out [][2]string) {
 			}
 			break
 		}
-		line = fmt.Sprintf("x509 e2e=1 cas=1 mode=%s lnb=%s lna=%s g=%s p=%s bd=%d now=%s vnow=%s snb=%s sna=%s cnb=0:0 cna=0:0",
-			mode, timeS(lnb), timeS(lna), g, k.P, k.Backdate, timeS(base), timeS(vnow), snbS, snaS)
+		tnb, _ := tplTime(k.TNB, base)
+		tna, _ := tplTime(k.TNA, base)
+		line = fmt.Sprintf("x509 e2e=1 cas=1 mode=%s lnb=%s lna=%s g=%s p=%s bd=%d now=%s vnow=%s snb=%s sna=%s cnb=%s cna=%s",
+			mode, timeS(lnb), timeS(lna), g, k.P, k.Backdate, timeS(base), timeS(vnow), snbS, snaS, timeS(tnb), timeS(tna))
 		out = append(out, [2]string{line, impl})
 		// renewal is gated on the old certificate being currently valid (C09): only then compare
-		if k.Renew && strings.HasPrefix(impl, "ok") && certs[0].NotBefore.Before(time.Now().Add(-time.Second)) &&
+		if k.Renew && k.Prov != "scep" && strings.HasPrefix(impl, "ok") && certs[0].NotBefore.Before(time.Now().Add(-time.Second)) &&
 			certs[0].NotAfter.After(time.Now().Add(2*time.Second)) {
 			t0 := time.Now()
 			nc, err := a.Renew(certs[0])
@@ -353,6 +472,9 @@ func (k *RenewCase) runAll() (out [][2]string) {
 			}
 		}
 	case "ssh":
+		if k.Prov == "k8ssa" || k.Prov == "oidc" {
+			k.KVA, k.KVB = TD{}, TD{} // their tokens carry no SSH options
+		}
 		uva, uvaS := k.UVA.build(base)
 		uvb, uvbS := k.UVB.build(base)
 		kva, kvaS := k.KVA.build(base)
@@ -366,8 +488,10 @@ func (k *RenewCase) runAll() (out [][2]string) {
 		if err != nil {
 			return nil // an instant JSON cannot carry
 		}
-		line = fmt.Sprintf("sshp e2e=1 mode=%s lna=%s g=%s p=%s ct=%d bd=%d now=%s uva=%s uvb=%s kva=%s kvb=%s cva=0 cvb=0",
-			mode, timeS(lna), g, k.P, k.CType, k.Backdate, timeS(base), uvaS, uvbS, kvaS, kvbS)
+		tva, _ := tplTime(k.TVA, base)
+		tvb, _ := tplTime(k.TVB, base)
+		line = fmt.Sprintf("sshp e2e=1 mode=%s lna=%s g=%s p=%s ct=%d bd=%d now=%s uva=%s uvb=%s kva=%s kvb=%s cva=0 cvb=0 mva=%s mvb=%s",
+			mode, timeS(lna), g, k.P, k.CType, k.Backdate, timeS(base), uvaS, uvbS, kvaS, kvbS, timeS(tva), timeS(tvb))
 		var cert *ssh.Certificate
 		impl = func() (impl string) {
 			defer func() {
@@ -549,9 +673,18 @@ func genE2E(r *c.Rng) *Case {
 	switch r.Intn(10) {
 	case 0, 1, 2:
 		k.Prov = "x5c"
-	case 3, 4, 5:
+	case 3, 4:
 		k.Prov = "nebula"
 		k.CType = 2 // Nebula issues SSH host certificates only
+	case 5:
+		k.Prov = "k8ssa"
+	case 6:
+		k.Prov = "oidc"
+		k.CType = 1 // OIDC's template data is a user certificate
+	case 7:
+		if k.Kind == "x509" {
+			k.Prov = "scep"
+		}
 	}
 	// claims that initialise (consistent), at authority and provisioner level
 	k.A = genClaimSet(r, false)
@@ -636,6 +769,48 @@ func genE2E(r *c.Rng) *Case {
 			k.UVB = genEnd()
 		}
 	}
+	// dates set by the provisioner's certificate template (operator-controlled; the request may still override them)
+	if r.Chance(1, 5) {
+		tstart := TD{Kind: 1, T: T{Rel: true, Off: c.Pick(r, []int64{0, -sec, -min, -hr, min, hr, 500 * ms})}}
+		tend := func() TD {
+			switch r.Intn(6) {
+			case 0:
+				return TD{Kind: 1, T: c.Pick(r, absTimes[3:])}
+			case 1:
+				return TD{Kind: 1, T: T{Rel: true, Off: c.Pick(r, smallOffs)}}
+			default:
+				return TD{Kind: 1, T: T{Rel: true, Off: addSat(tstart.T.Off, aim())}}
+			}
+		}
+		if k.Kind == "x509" {
+			if r.Chance(2, 3) {
+				k.TNB = tstart
+			}
+			if r.Chance(2, 3) {
+				k.TNA = tend()
+			}
+			if r.Chance(1, 2) { // let the template decide
+				k.SNB, k.SNA = TD{}, TD{}
+			}
+		} else {
+			if r.Chance(2, 3) {
+				k.TVA = tstart
+				if r.Chance(1, 6) { // before 1970: sshutil's toValidity
+					k.TVA = TD{Kind: 1, T: c.Pick(r, absTimes[4:6])}
+				}
+			}
+			if r.Chance(2, 3) {
+				k.TVB = tend()
+			}
+			if r.Chance(1, 2) {
+				k.UVA, k.UVB, k.KVA, k.KVB = TD{}, TD{}, TD{}, TD{}
+			}
+		}
+	}
+	if k.Prov == "k8ssa" || k.Prov == "scep" {
+		// its default templates copy the request (no subject / type in the template data): keep them
+		k.TNB, k.TNA, k.TVA, k.TVB = TD{}, TD{}, TD{}, TD{}
+	}
 	// credential window: contains the wall clock, ends around the default / requested end
 	k.LNB = T{Rel: true, Off: c.Pick(r, []int64{-hr, -dy, -min, -10 * sec, -365 * dy})}
 	switch r.Intn(4) {
@@ -659,6 +834,18 @@ func cornerE2E() []*Case {
 		{Renew: &RenewCase{Kind: "ssh", Prov: "x5c", CType: 2, Backdate: min, Renew: true, LNB: T{Rel: true, Off: -hr}, LNA: T{Rel: true, Off: hr}}},
 		{Renew: &RenewCase{Kind: "x509", Prov: "nebula", Backdate: min, Renew: true, LNB: T{Rel: true, Off: -hr}, LNA: T{Rel: true, Off: hr}}},
 		{Renew: &RenewCase{Kind: "ssh", Prov: "nebula", CType: 2, Backdate: min, Renew: true, LNB: T{Rel: true, Off: -hr}, LNA: T{Rel: true, Off: hr}}},
+		// the other default-duration provisioners with a token flow
+		{Renew: &RenewCase{Kind: "x509", Prov: "k8ssa", Backdate: min, Renew: true}},
+		{Renew: &RenewCase{Kind: "ssh", Prov: "k8ssa", CType: 1, Backdate: min}},
+		{Renew: &RenewCase{Kind: "x509", Prov: "oidc", Backdate: min, Renew: true}},
+		{Renew: &RenewCase{Kind: "x509", Prov: "scep", Backdate: min}},
+		{Renew: &RenewCase{Kind: "ssh", Prov: "oidc", CType: 1, Backdate: min}},
+		// templates that set the validity: inside the bounds, beyond the maximum, before 1970
+		{Renew: &RenewCase{Kind: "x509", Prov: "jwk", Backdate: min, TNB: TD{Kind: 1, T: T{Rel: true, Off: -hr}}, TNA: TD{Kind: 1, T: T{Rel: true, Off: 2 * hr}}}},
+		{Renew: &RenewCase{Kind: "x509", Prov: "jwk", Backdate: min, TNA: TD{Kind: 1, T: T{Rel: true, Off: 48 * hr}}}},
+		{Renew: &RenewCase{Kind: "ssh", Prov: "jwk", CType: 1, Backdate: min, TVA: TD{Kind: 1, T: T{Rel: true, Off: -hr}}, TVB: TD{Kind: 1, T: T{Rel: true, Off: 2 * hr}}}},
+		{Renew: &RenewCase{Kind: "ssh", Prov: "jwk", CType: 1, Backdate: min, TVB: TD{Kind: 1, T: T{Rel: true, Off: 48 * hr}}}},
+		{Renew: &RenewCase{Kind: "ssh", Prov: "jwk", CType: 1, Backdate: min, TVA: TD{Kind: 1, T: T{Sec: unixToInternal - 315619200}}}},
 		// certificates signed with the CA key outside the sign chain: "forever", 292 years
 		{Renew: &RenewCase{Kind: "sshext", Prov: "jwk", CType: 2, Backdate: min, EVA: U{Abs: 1}, EVB: U{Abs: 1<<64 - 1}}},
 		{Renew: &RenewCase{Kind: "sshext", Prov: "jwk", CType: 2, Backdate: min, EVA: U{Rel: true, Off: -200}, EVB: U{Rel: true, Off: -200 + 9223372100}}},
